@@ -358,11 +358,14 @@ calcvla(struct func *f, struct type *t)
 		return;
 	assert(t->kind == TYPEARRAY);
 	if (!t->u.array.size) {
-		assert(t->base->size || t->base->kind == TYPEARRAY);
 		if (!t->u.array.length)
 			error(&tok.loc, "array of unspecified size '[*]' is only allowed in a function prototype");
 		length = convert(f, &typeulong, t->u.array.length->type, funcexpr(f, t->u.array.length));
-		basesize = t->base->size ? mkintconst(t->base->size) : t->base->u.array.size;
+		/* the element size is only computed at run time for elements that are themselves VLAs; it may be a constant zero */
+		if (t->base->size || !(t->base->prop & PROPVM))
+			basesize = mkintconst(t->base->size);
+		else
+			basesize = t->base->u.array.size;
 		t->u.array.size = funcinst(f, IMUL, 'l', length, basesize);
 	}
 }
